@@ -386,7 +386,7 @@ def _match(exp, got):
             return False
         return all(_match(a, b) for a, b in zip(exp, got))
     if isinstance(exp, bool):
-        return isinstance(got, bool) and got == exp
+        return isinstance(got, (bool, int)) and not isinstance(got, float) and got == exp
     if isinstance(exp, bytes):
         return _norm(got) == exp
     return got == exp and type(got) is type(exp)
